@@ -27,5 +27,11 @@ def c12_fmt3_bounded_nominal(case):
             bool(d.get("years") or d.get("months")))
 
 
-REGIONS = {"c12_fmt4_bounded_nominal": c12_fmt4_bounded_nominal,
+def c20_week53_360day(case):
+    """360-day calendar, truncated point naming week 53 (which no 360-day year has)"""
+    return (case.get("check") == "termination" and case.get("mode") == "360day" and
+            (case.get("t") or {}).get("week_of_year") == 53)
+
+
+REGIONS = {"c20_week53_360day": c20_week53_360day, "c12_fmt4_bounded_nominal": c12_fmt4_bounded_nominal,
            "c12_fmt3_bounded_nominal": c12_fmt3_bounded_nominal}
